@@ -247,13 +247,17 @@ type compiled struct {
 
 // compileAll compiles the layouts on a pool of worker subprocesses (the real parser, one compile at a time
 // per process); results come back in input order
+var compileRetries int
+
 func compileAll(ls []Layout) []compiled {
 	out := make([]compiled, len(ls))
+	retries := 0
 	nw := 8
 	if len(ls) < nw {
 		nw = len(ls)
 	}
 	var wg sync.WaitGroup
+	var mu sync.Mutex
 	next := make(chan int, len(ls))
 	for i := range ls {
 		next <- i
@@ -267,7 +271,21 @@ func compileAll(ls []Layout) []compiled {
 			defer w.Close()
 			for i := range next {
 				var r crep
-				died, timedOut, stderr := w.Call(creq{render(ls[i]), ls[i].Root}, &r, 60*time.Second)
+				var died, timedOut bool
+				var stderr string
+				// a compile takes ~50 ms; on an overloaded machine a worker can stall, so a timeout is retried
+				// on a fresh worker with a longer deadline before it counts
+				for attempt, dl := range []time.Duration{60 * time.Second, 180 * time.Second, 600 * time.Second} {
+					r = crep{}
+					died, timedOut, stderr = w.Call(creq{render(ls[i]), ls[i].Root}, &r, dl)
+					if !timedOut && !died {
+						break
+					}
+					mu.Lock()
+					retries++
+					mu.Unlock()
+					_ = attempt
+				}
 				switch {
 				case timedOut:
 					out[i] = compiled{nil, "hang"}
@@ -290,6 +308,7 @@ func compileAll(ls []Layout) []compiled {
 		}()
 	}
 	wg.Wait()
+	compileRetries += retries
 	return out
 }
 
@@ -1230,7 +1249,7 @@ Local Open Scope positive_scope.`
 	n := 280
 	nh := 100
 	if c.Thorough() {
-		n, nh = 9000, 2500
+		n, nh = 5000, 1500
 	}
 	if c.Search {
 		n, nh = n*4, 0
@@ -1253,6 +1272,58 @@ Local Open Scope positive_scope.`
 			o = splitOpts{maxBlocks: 5, maxFiles: 4, splitFields: true, shape: 1 + g.r.Intn(3)}
 		}
 		jobs = append(jobs, job{"split", replay{Split: g.split(s, o), Joined: joined(s)}, i%5 == 0})
+	}
+	// thorough: every set partition of the members of a small app into blocks (restricted growth strings),
+	// each in two random block orders / file assignments
+	if c.Thorough() {
+		for a := 0; a < 40; a++ {
+			sp := g.spec(1, 4)
+			for len(sp.Apps[0].Members) != 4 {
+				sp = g.spec(1, 4)
+			}
+			ap := sp.Apps[0]
+			var rgs func(pre []int, max int)
+			rgs = func(pre []int, max int) {
+				if len(pre) == len(ap.Members) {
+					for rep := 0; rep < 2; rep++ {
+						bs := make([]Block, max+1)
+						for i := range bs {
+							bs[i].Parts = ap.Parts
+						}
+						bs[0].Long, bs[0].A = ap.Long, ap.A
+						for mi, b := range pre {
+							bs[b].Members = append(bs[b].Members, ap.Members[mi])
+						}
+						shuffle(g.r, bs)
+						nf := 1 + g.r.Intn(2)
+						files := []File{{Name: "root.sysl"}, {Name: "f1.sysl"}}[:nf]
+						for i, b := range bs {
+							fi := g.r.Intn(nf)
+							if i < nf {
+								fi = i
+							}
+							files[fi].Blocks = append(files[fi].Blocks, b)
+						}
+						if nf == 2 && len(files[1].Blocks) == 0 {
+							files = files[:1]
+						} else if nf == 2 {
+							files[0].Imports = []string{"f1.sysl"}
+						}
+						jobs = append(jobs, job{"partitions", replay{Split: Layout{Root: "root.sysl", Files: files}, Joined: joined(sp)}, false})
+					}
+					return
+				}
+				for b := 0; b <= max+1; b++ {
+					nm := max
+					if b > max {
+						nm = b
+					}
+					rgs(append(append([]int{}, pre...), b), nm)
+				}
+			}
+			rgs([]int{0}, 0)
+		}
+		c.Res.Extra["exhaustive_partitions"] = "all 15 set partitions of 4 members x 2 orders for 40 apps"
 	}
 	for i := 0; i < nh; i++ {
 		l := g.hostile(g.spec(2, 5))
@@ -1283,9 +1354,10 @@ Local Open Scope positive_scope.`
 		if j.joinedToCoq {
 			cs.Add(caseTerm(j.rp.Joined, jm.m), replay{Split: j.rp.Joined, Joined: j.rp.Joined, Note: "joined form"})
 		}
-		if j.stream == "split" {
+		if j.stream == "split" && len(j.rp.Split.Files) > 1 {
 			c.Sample(map[string]interface{}{"split": render(j.rp.Split), "joined": render(j.rp.Joined)})
 		}
 	}
 	cs.Close()
+	c.Res.Extra["compile_retries_after_timeout"] = compileRetries
 }
